@@ -416,7 +416,7 @@ class Failpoint:
     InjectedFault instead (sys.monitoring PY_START; nothing in the repository is edited).  k=None only counts.
     After the fault has fired once the window is inert, so clean-up code of the repository runs undisturbed."""
 
-    TOOL = 4
+    TOOL = 2  # (the profiler's slot: 3 is the call monitor of C13, 4 the interleaver of C17)
     _claimed = False
 
     def __init__(self, k=None, exc=InjectedFault):
